@@ -359,12 +359,21 @@ func (a *boundsAn) lenOf(v ssa.Value) lin {
 	if f, ok := a.lens[v]; ok {
 		return f
 	}
-	a.lens[v] = a.sv(v, 'l')
+	ph := a.sv(v, 'l')
+	a.lens[v] = ph
 	saved := a.anchor
 	a.anchor = v
 	f := a.lenOf0(v)
-	a.anchor = saved
 	a.lens[v] = f
+	// the placeholder may have leaked into forms computed during a cycle (a slice that is
+	// re-sliced by its own length in a loop): tie it to the length found
+	if !f.equal(ph) {
+		if _, self := f.t[sym{canon(v), 'l'}]; !self {
+			a.addDef(ph.sub(f))
+			a.addDef(f.sub(ph))
+		}
+	}
+	a.anchor = saved
 	return f
 }
 
